@@ -1,5 +1,6 @@
 import SpVerif.Lemmas.Hilbert2Curve
 import SpVerif.Lemmas.HilbertN
+import SpVerif.Lemmas.HilbertLink
 /-!
 # C07 — the Hilbert curve mapping is a locality-preserving bijection
 
@@ -11,7 +12,8 @@ Property theorems only (helper lemmas live in `Lemmas/Hilbert2*.lean`).  They ar
 For **every dimension n** (the list model `coordN`/`distN` of the same two routines) the two round trips, the ranges and the
 bijection are proved as well (`C07_*_all_n`, lemmas in `Lemmas/HilbertN.lean`): every elementary step of the "undo excess work"
 loops is an involution on word lists, Gray encode / decode are inverse, and the bit transposition is inverse to the
-re-interleaving.  Adjacency, end points, refinement and the identity with the classical recursion are proved for n = 2 only; for
+re-interleaving.  For n = 2 the list model is the pair model (`C07_list_model_is_pair_model`).  Adjacency, end points, refinement
+and the identity with the classical recursion are proved for n = 2 only; for
 n ∈ {1, 3} those clauses are compared with the implementation by the correspondence check.
 -/
 namespace SpVerif
@@ -71,6 +73,17 @@ theorem C07_refinement (p : Nat) (c : W2) (hc : c.1 < 2 ^ (p+1) ∧ c.2 < 2 ^ (p
 /-! non-vacuity: the hypotheses are met by concrete non-trivial cells -/
 example : (27 : Nat) < 4 ^ 3 ∧ coord2 3 27 = (3, 6) ∧ dist2 3 (3, 6) = 27 := by decide
 example : ((5, 6) : W2).1 < 2 ^ 3 ∧ ((5, 6) : W2).2 < 2 ^ 3 ∧ dist2 3 (5, 6) / 4 = dist2 2 (2, 3) := by decide
+
+/-- **the routine written for every n, run with n = 2, is the pair model** the n = 2 theorems are about - so the classical
+recursion, adjacency, end points and refinement hold for what `coordinates_from_distances(p, 2, ·)` computes -/
+theorem C07_list_model_is_pair_model (p h : Nat) : coordN p 2 h = [(coord2 p h).1, (coord2 p h).2] :=
+  coordN_two p h
+
+/-- consecutive distances are grid neighbours, stated for the list model with n = 2 -/
+theorem C07_adjacent_list_model (p h : Nat) (hh : h + 1 < 4 ^ p) :
+    ∃ a0 a1 b0 b1, coordN p 2 h = [a0, a1] ∧ coordN p 2 (h + 1) = [b0, b1] ∧
+      ((a0 = b0 ∧ (a1 + 1 = b1 ∨ b1 + 1 = a1)) ∨ (a1 = b1 ∧ (a0 + 1 = b0 ∨ b0 + 1 = a0))) :=
+  ⟨_, _, _, _, coordN_two p h, coordN_two p (h + 1), coord2_adjacent p h hh⟩
 
 /-! ### every dimension -/
 
